@@ -424,6 +424,14 @@ class Inliner:
             return None
         if not cal.get("inrepo") or cal.get("virtual") or cal.get("ctor") or cal.get("dtor") or cal.get("lambda"):
             return None
+        if call.get("k") == "MCall" and "CDNS::CdnsEncoder &" in (cal.get("sig") or []) and cal.get("ret") == "unsigned long" \
+                and unwrap(call.get("recv") or {}).get("k") != "This":
+            # serialising *another* object (`item.write_x(enc, ..)`) is one item of the caller's output: the emission analysis
+            # takes such a call as a structure-valued site and analyses the callee as a writer of its own
+            kept = _lookup(self.facts, cal)
+            if kept is not None:
+                self.kept_calls[kept["key"]] = self.kept_calls.get(kept["key"], 0) + 1
+            return None
         if call.get("k") not in ("Call", "MCall"):
             return None
         q = cal.get("qn") or ""
@@ -673,6 +681,7 @@ class Inliner:
                 self.memo = {}
             substitute_named_constants(body, self.facts)
             propagate(body, self.facts, self.memo)
+            project_aggregates(body, self.facts)
             fold_constants(body, self.facts.enums)
         except RecursionError:
             pass
@@ -755,7 +764,8 @@ class Inliner:
             n["then"] = self._wrap(s.get("then"), self.tx_stmt(s["then"], stack, fn)) if s.get("then") is not None else None
             if s.get("else") is not None:
                 n["else"] = self._wrap(s.get("else"), self.tx_stmt(s["else"], stack, fn))
-            return [n]
+            r = self._if_site(n, stack, fn)
+            return r if r is not None else [n]
         if k in ("While", "Do", "For", "RangeFor"):
             n = dict(s)
             for key in ("cond", "inc", "range"):
@@ -932,6 +942,9 @@ class Inliner:
             parts = self.callee_parts(site[0], stack) if site is not None else None
         if parts is None:
             return [s]
+        return self._inline_site(s, site, parts, stack, fn)
+
+    def _inline_site(self, s, site, parts, stack, fn):
         call, K, void_ok = site
         params, body, recv, name, is_lam, cid, args = parts
         if len(args) < len(params):
@@ -968,6 +981,35 @@ class Inliner:
             self._lambdas.update(new_lams)
             res = self.tx_block(res, stack + ("<lambda-arg>",), fn)
         return res
+
+    def _if_site(self, n, stack, fn):
+        """`if (helper(..)) S [else S2]` where the helper has several returns: the helper runs first, and each of its returns
+        decides the branch - its body is expanded with `if (<returned expression>) S else S2` at every return (a returned
+        constant then selects the branch when constants are folded).  Only for small branches without declarations (they are
+        copied once per return)."""
+        if n.get("condvar") is not None:
+            return None
+        c = unwrap(n.get("cond"))
+        neg = False
+        if isinstance(c, dict) and c.get("k") == "Un" and c.get("op") == "!":
+            c, neg = unwrap(c.get("e")), True
+        if not (isinstance(c, dict) and c.get("k") in ("Call", "MCall")):
+            return None
+        branches = [b for b in (n.get("then"), n.get("else")) if b is not None]
+        size = sum(1 for b in branches for x in walk(b) if ir.is_stmt_kind(x) or x.get("k") in ("Bin", "Call", "MCall", "OpCall"))
+        if size > 12 or any(x.get("k") in ("Decl", "Lambda", "Return", "Break", "Continue", "Case", "Default") for b in branches for x in walk(b)):
+            return None
+        parts = self.callee_parts(c, stack)
+        if parts is None:
+            return None
+
+        def K(e, n=n, neg=neg):
+            if e is None:
+                raise NoInline("void result used as a condition")
+            m = copy.deepcopy({kk: vv for kk, vv in n.items() if kk != "cond"})
+            m["cond"] = {"k": "Un", "op": "!", "e": e, "t": "bool", "l": n.get("l")} if neg else e
+            return [m]
+        return self._inline_site(n, (c, K, False), parts, stack, fn)
 
     # ---- N3 conditional lifting
     def lift_cond(self, s):
@@ -1212,7 +1254,12 @@ class Inliner:
             root = unwrap(s.get("rhs"))
         elif k == "Return" and s.get("e") is not None:
             root = unwrap(s["e"])
-        if isinstance(root, dict) and root.get("k") in ("Call", "MCall", "OpCall", "Construct"):
+        elif k == "Decl" and len(s.get("vars", [])) == 1 and s["vars"][0].get("init") is not None and not s["vars"][0].get("ref"):
+            root = unwrap(s["vars"][0]["init"])
+        # (the root may also be an operator expression: `value += uint64_t(next_byte()) << shift;` - the helper's statements
+        # run before the statement, its returned expression takes the place of the call; everything else in the statement has to
+        # be pure)
+        if isinstance(root, dict):
             nested = []
 
             def scan(n, top):
@@ -1228,7 +1275,7 @@ class Inliner:
                     scan(n.get("lhs"), False)
                     return
                 if not top and is_call(n):
-                    nested.append(n)
+                    nested.append(unwrap(n))
                     return
                 for c in ir.children(n):
                     scan(c, False)
@@ -1642,6 +1689,126 @@ def post_lift(body, inl):
 
 # ------------------------------------------------------------------------------------------------ driver
 
+def split_postinc_deref(body):
+    """N5: `use(*p++);` is `use(p[0]); p++;` when `*p++` is the only mention of p in the statement (expression statements and
+    single-variable declarations; returns and conditions keep their spelling).  Returns the number of rewrites."""
+    count = [0]
+
+    def leaf(s):
+        k = s.get("k")
+        if k not in ("Bin", "Call", "MCall", "OpCall", "Decl", "Cast"):
+            return None
+        if k == "Decl" and len(s.get("vars", [])) != 1:
+            return None
+        hits = []
+        for n in walk(s):
+            if n.get("k") == "Lambda":
+                return None
+            if n.get("k") == "Un" and n.get("op") == "*":
+                inner = unwrap(n.get("e"))
+                if isinstance(inner, dict) and inner.get("k") == "Un" and inner.get("op") == "post++" and path(inner.get("e")) is not None:
+                    hits.append((n, inner))
+        if len(hits) != 1:
+            return None
+        n, inner = hits[0]
+        pp = path(inner["e"])
+        mentions = sum(1 for x in walk(s) if path(x) == pp and x.get("k") in ("Ref", "Member"))
+        if mentions != 1:
+            return None
+        # nothing else in the statement may have an effect that could depend on the order (calls are fine when pure)
+        if any(x.get("k") == "Un" and x.get("op") in ("pre++", "post++", "pre--", "post--") and x is not inner for x in walk(s)):
+            return None
+        idx = {"k": "Index", "l": n.get("l"), "t": n.get("t"), "base": copy.deepcopy(inner["e"]),
+               "idx": {"k": "Lit", "l": n.get("l"), "t": "int", "v": 0, "cv": 0}}
+
+        def rep(x):
+            if isinstance(x, list):
+                return [rep(y) for y in x]
+            if not isinstance(x, dict):
+                return x
+            if x is n:
+                return idx
+            return {kk: (rep(v) if isinstance(v, (dict, list)) else v) for kk, v in x.items()}
+        count[0] += 1
+        return [rep(s), {"k": "Un", "op": "post++", "l": inner.get("l"), "t": inner.get("t"), "e": copy.deepcopy(inner["e"])}]
+
+    def visit(n):
+        if isinstance(n, list):
+            for x in n:
+                visit(x)
+            return
+        if not isinstance(n, dict):
+            return
+        if n.get("k") == "Block":
+            out = []
+            for st in n.get("s", []):
+                r = leaf(st) if isinstance(st, dict) else None
+                if r is not None:
+                    out.extend(r)
+                else:
+                    visit(st)
+                    out.append(st)
+            n["s"] = out
+            return
+        for key in ("then", "else", "body", "sub"):
+            c = n.get(key)
+            if isinstance(c, dict) and c.get("k") != "Block":
+                r = leaf(c)
+                if r is not None:
+                    n[key] = {"k": "Block", "l": c.get("l"), "s": r}
+                    continue
+            if isinstance(c, (dict, list)):
+                visit(c)
+        for h in n.get("handlers", []) or []:
+            visit(h.get("body"))
+    visit(body)
+    return count[0]
+
+
+def project_aggregates(body, facts):
+    """`T{e0, e1, ..}.f_i` is `e_i` (aggregate initialisation of a struct without bases, every other element pure): what is
+    left of a small result struct after its local was substituted.  Returns the number of projections."""
+    count = [0]
+
+    def rec(x):
+        if isinstance(x, list):
+            for i, y in enumerate(x):
+                r = rec(y)
+                if r is not None:
+                    x[i] = r
+            return None
+        if not isinstance(x, dict):
+            return None
+        for key in list(x.keys()):
+            v = x[key]
+            if isinstance(v, dict):
+                r = rec(v)
+                if r is not None:
+                    x[key] = r
+            elif isinstance(v, list):
+                rec(v)
+        if x.get("k") == "Member" and x.get("field") and not x.get("arrow"):
+            b = x.get("base")
+            while isinstance(b, dict) and (b.get("k") in ("Cast", "DefaultArg", "DefaultInit", "Paren") or
+                                           (b.get("k") == "Construct" and b.get("copymove") and len(b.get("args", [])) == 1) or
+                                           (b.get("k") == "Temp")):
+                b = b.get("e") if b.get("k") != "Construct" else b["args"][0]
+            if isinstance(b, dict) and b.get("k") == "InitList":
+                rec_t = (b.get("t") or "").replace("const ", "")
+                r = facts.records.get(rec_t)
+                elems = b.get("c", [])
+                if r and not r.get("bases") and len(r.get("fields", [])) == len(elems):
+                    names = [f_["n"] for f_ in r["fields"]]
+                    if x.get("n") in names:
+                        i = names.index(x["n"])
+                        if all(is_pure(e_, facts) for j, e_ in enumerate(elems) if j != i) and isinstance(elems[i], dict):
+                            count[0] += 1
+                            return copy.deepcopy(elems[i])
+        return None
+    rec(body)
+    return count[0]
+
+
 def normalise(facts, do_inline=True, do_propagate=True):
     inl = Inliner(facts)
     for f in facts.functions.values():
@@ -1673,7 +1840,9 @@ def normalise(facts, do_inline=True, do_propagate=True):
                 if f["body"] is f.get("body_raw"):
                     f["body"] = copy.deepcopy(f["body"])
                 substitute_named_constants(f["body"], facts)
+                stats["split_postinc"] = stats.get("split_postinc", 0) + split_postinc_deref(f["body"])
                 stats["propagated_uses"] += propagate(f["body"], facts, memo)
+                stats["projected"] = stats.get("projected", 0) + project_aggregates(f["body"], facts)
                 fold_constants(f["body"], facts.enums)
                 if post_lift(f["body"], inl):
                     fold_constants(f["body"], facts.enums)
